@@ -65,7 +65,7 @@ NOT_APPLICABLE = {
 }
 
 # properties that will be claimed but whose check is not built yet
-PENDING = {k: "claimed in DESIGN.md; its check is not built yet in this commit" for k in ("C11").split()}
+PENDING = {}
 
 PROPS = {}
 
@@ -322,3 +322,27 @@ _p('C10', 'translation_validation',
               'complete only in the sense that every catalogue entry of the odd machine is reached',
    technique='deterministic simulation: same seeded programs replayed under PURE_PYTHON=0 and =1, event-log diff',
    design_ref='DESIGN.md 3/C10')
+
+_p('C11', 'fault_enumeration',
+   [Part('race', {'part': 'reenter'}, configs=[(C, 1), (PY, 1)], kind='enum', name='race/reenter-product', timeout=180.0),
+    Part('race', {'part': 'threads'}, configs=[(C, 5), (PY, 3), (C_H1, 1)], quick=9000, thorough=600000, name='race/threads', timeout=60.0, batch=50)],
+   rule='Part A (enumerated completely): one case = one lookup through one of the nine entry points on a two-level registry chain of either '
+        'flavour, with one callback point armed (lazy required iterable, __providedBy__ descriptor, overridden _uncached_* before/after delegating, '
+        'a required specification with a Python-level subscribe, _generation as a property of the base registry, an overridden changed(), the '
+        'factory) to perform one injected action (register/unregister/subscribe/unsubscribe on the registry or its base, registry __bases__, '
+        're-basing a required interface, class declaration change, rebuild(), changed(), recursive lookups, gc with a mutating finalizer, raise) '
+        'in one of three cache states; oracles: ownership audit of the cache dictionaries at callback exit, answer in {before, after}, the next '
+        'lookup equals the final state, injected exceptions propagate, no other exception, reference balance of operands and cached results over '
+        'repetitions.  Part B (sampled): 2-4 real threads under a baton scheduler whose PRNG decides every pre-emption at line events inside '
+        'zope/interface/*.py, k lookup threads and 0-1 mutator (or lookup-only after a base-registry change), locks the library takes are '
+        'simulator-owned; oracles: no crash, no exception in a lookup, every answer equals the model in one of the states its interval overlaps, '
+        'final re-ask equals the final state; distinct_nontrivial = distinct (flavour, entry, callback point, action, cache state, fired?) cases '
+        'plus (configuration, flavour, entry, overlapped mutations) thread states',
+   assumptions=['CPython hands over the GIL only between bytecodes, never inside the extension, so line-event pre-emption of the Python callbacks '
+                'is a superset of the real switch points inside a C lookup', 'an exception seen by the mutator thread is not by itself a violation',
+                'no free-threaded build / TSan interpreter is available: data races inside the extension without the GIL are not examined',
+                REAL_STUB + '; lookup classes, specification classes and registries with instrumented callbacks are simulator subclasses'],
+   level_text='every (entry point x callback point x action x cache state x flavour) combination is executed in both implementations with an '
+              'ownership audit that needs no crash to fire; thread schedules are a seeded sample with deterministic replay',
+   technique='deterministic simulation: enumerated re-entrant callback faults with cache-ownership audit + seeded baton-scheduled thread interleavings vs model',
+   design_ref='DESIGN.md 3/C11', expected_probes=['callback-fired', 'lookup-overlapped-mutation', 'lock-contention', 'refbalance-checked'])
